@@ -78,6 +78,46 @@ def run(ctx):
             rc, t = eng.finish()
             if rc is None:
                 eng.kill()
+    # game-like sequences in ONE process (the cache is kept between moves): play the engine's own best move, search again
+    games = [("fen 6k1/1R3p2/6p1/2Bp3p/3P2q1/P7/1P2rQ1K/5R2 b - - 4 44", []), ("startpos", ["e2e4", "e7e5", "g1f3"]),
+             ("fen r3k2r/p1ppqpb1/bn2pnp1/3PN3/1p2P3/2N2Q1p/PPPBBPPP/R3K2R w KQkq - 0 1", []),
+             ("fen 8/2p5/3p4/KP5r/1R3p1k/8/4P1P1/8 w - - 0 1", [])]
+    plies = 16 if ctx["tier"] == "quick" else 60
+    for pos, ms0 in games:
+        fen = "rnbqkbnr/pppppppp/8/8/8/8/PPPPPPPP/RNBQKBNR w KQkq - 0 1" if pos == "startpos" else pos[4:]
+        eng = uciproc.Engine()
+        ms = list(ms0)
+        try:
+            for ply in range(plies):
+                poscmd = "position " + pos + (" moves " + " ".join(ms) if ms else "")
+                eng.send(poscmd)
+                before = len(eng.lines())
+                d = 2 + (ply % 3)
+                eng.send("go depth %d" % d)
+                idx = eng.wait_for(lambda l: l.startswith("bestmove"), 60, start=before)
+                if idx is None:
+                    break
+                out = eng.lines()[before:idx + 1]
+                for l in out:
+                    if l.startswith("info"):
+                        lines_checked += 1
+                        m = INFO_RE.match(l)
+                        if not m:
+                            rp = C.write_replay(prop, {"kind": "self-play info line", "position": poscmd, "problem": "not well-formed: %r" % l})
+                            violations.append({"replay": rp})
+                            continue
+                        pv = m.group(7).split()
+                        pv_items.append("match from_fen %s with Some b0 => match play b0 [%s] with Some _ => true | None => false end | None => false end"
+                                        % (B.coq_str(fen), "; ".join(B.coq_str(x) for x in ms + pv)))
+                        pv_meta.append((poscmd, d, l))
+                bm = out[-1].split()
+                if len(bm) < 2 or bm[1] in ("a1a1", "(none)"):
+                    break
+                ms.append(bm[1])
+        finally:
+            rc, t = eng.finish()
+            if rc is None:
+                eng.kill()
     vals, lg = C.coq_eval_items("c14pv", B.HEADER, pv_items, lambda l: l, nshards=C.NPROC, timeout=900)
     if vals is None:
         rp = C.write_replay(prop, {"broken": "PV replay on the model", "log": lg[-2000:]})
